@@ -446,6 +446,14 @@ def run(ctx):
             tb, fb = (rng.choice([1e4, 30.0, 5000.0]), rng.choice([100.0, 0.0, 1000.0])) if thin_t else (rng.choice([0.01, 0.0, 1.0]), rng.choice([6e6, float(MAXF), 50000.0]))
             ctx.case((typ, "thin_feature", "time" if thin_t else "frequency"), {"g": s_, "tb": tb, "fb": fb, "tb2": None, "fb2": None})
             judge(ctx, s_, tb, fb)
+    # buffers beyond any recording: the time axis has no upper limit, so neither has a time buffer (4e9 s, 1e12 s)
+    for typ in geoms.TYPES:
+        for _ in range(ctx.scale(4, 20)):
+            s_ = geoms.random_geom(rng, typ, rng.choice(["realistic", "dyadic", "edge"]))
+            tb, fb = rng.choice([4e9, 1e12, 2.5e10]), rng.choice([100.0, 6e6, 0.0, 1000.0])
+            tb2, fb2 = (tb * 4, fb) if rng.random() < 0.5 else (None, None)
+            ctx.case((typ, "buffer_beyond_any_recording", "mono" if tb2 else "single"), {"g": s_, "tb": tb, "fb": fb, "tb2": tb2, "fb2": fb2})
+            judge(ctx, s_, tb, fb, tb2, fb2)
     for _ in range(ctx.scale(6, 30)):
         run_concurrent(ctx, rng.getrandbits(32))
     n = ctx.scale(120, 900)
